@@ -72,24 +72,24 @@ def opScriptEnum (j : Json) : J Json := do
     closed := closed.push (if closedScript s then 'C' else 'O')
   pure (jobj [("res", jstr (String.intercalate ";" out.toList)), ("closed", jstr (String.ofList closed.toList))])
 
-partial def valOfJson : Json → Val Json
-  | .arr a => .list (a.toList.map valOfJson)
+partial def qvalOfJson : Json → Val Json
+  | .arr a => .list (a.toList.map qvalOfJson)
   | j => .atom j
 
-partial def valToJson : Val Json → Json
+partial def qvalToJson : Val Json → Json
   | .atom a => a
-  | .list vs => jarr (vs.map valToJson)
+  | .list vs => jarr (vs.map qvalToJson)
 
 /-- `flatten`: `q` = list of per-subset value lists (nested JSON arrays), `level` -/
 def opFlatten (j : Json) : J Json := do
   let level ← asNat (← fld j "level")
   let q : QueryResult Json ← (← asList (← fld j "q")).mapM fun s => do
-    pure ((← asList s).map valOfJson)
+    pure ((← asList s).map qvalOfJson)
   let r : Json := match level with
     | 0 => match (flattenValues 0 q : Option Json) with | none => Json.null | some a => a
     | 1 => jarr (flattenValues 1 q : List Json)
     | 2 => jarr ((flattenValues 2 q : List (List Json)).map jarr)
-    | n + 3 => jarr ((flattenValues (n + 3) q : List (List (Val Json))).map fun vs => jarr (vs.map valToJson))
+    | n + 3 => jarr ((flattenValues (n + 3) q : List (List (Val Json))).map fun vs => jarr (vs.map qvalToJson))
   pure (jobj [("res", r)])
 
 end Bufr.Drv
